@@ -12,7 +12,7 @@ SCR = "/tmp/ckc-redteam-%d" % os.getpid()
 TABLE = {
     "R1/gap1": ["C02", "C09"], "R1/gap2": ["C03"], "R1/gap3": ["C01"], "R1/gap4": ["C01"], "R1/gap5": ["C01"],
     "R1/gap6": ["C02", "C03", "C09"], "R1/gap7": ["C03"], "R1/gap8": ["C01"], "R1/gap9": ["C09"], "R1/gap10": ["C02", "C09"],
-    "R1/gap11": ["C02"], "R1/gap12": ["C01", "C02"], "R1/gap13": ["C03"],
+    "R1/gap11": ["C19"], "R1/gap12": ["C01", "C02"], "R1/gap13": ["C03"],
     "R2/gap1": ["C06"], "R2/gap2": ["C06"], "R2/gap3": ["C04"], "R2/gap4": ["C04"], "R2/gap5": ["C04"], "R2/gap6": ["C05", "C04"],
     "R2/gap7": ["C05"], "R2/gap8": ["C05"], "R2/gap9": ["C05"], "R2/gap10": ["C05"], "R2/gap11": ["C05"], "R2/gap12": ["C13"], "R2/gap13": ["C04"],
     "R3/gap1": ["C07"], "R3/gap2": ["C07"], "R3/gap3": ["C07"], "R3/gap4": ["C07"], "R3/gap5": ["C07"], "R3/gap6": ["C07"], "R3/gap7": ["C20"],
